@@ -601,7 +601,9 @@ class FileBuilder:
         finally:
             suboperation.is_finished = True
             self._append_suboperation(suboperation)
-        return suboperation.return_value
+
+        # Return a copy, so that the caller can't alter the cache entry
+        return copy.deepcopy(suboperation.return_value)
 
     def subbuild(self, func_name, func, *args, **kwargs):
         """Execute a cacheable operation.
@@ -730,7 +732,9 @@ class FileBuilder:
         finally:
             suboperation.is_finished = True
             self._append_suboperation(suboperation)
-        return suboperation.return_value
+
+        # Return a copy, so that the caller can't alter the cache entry
+        return copy.deepcopy(suboperation.return_value)
 
     def read_text(self, filename, file_comparison=FileComparison.METADATA):
         """Open the specified file for reading text.
